@@ -20,7 +20,8 @@ use std::time::{Duration, Instant};
 use tokio::net::{TcpListener, TcpStream};
 use tokio::sync::mpsc::{unbounded_channel, UnboundedReceiver, UnboundedSender};
 use tokio_tungstenite::tungstenite::Message as WsMsg;
-use tokio_tungstenite::{MaybeTlsStream, WebSocketStream};
+use std::future::Future;
+use tokio_tungstenite::WebSocketStream;
 
 const WATCHDOG: Duration = Duration::from_secs(30);
 /// how long a slot may take to become free again after its handler was seen to exit
@@ -317,6 +318,95 @@ async fn start_server(cap: Option<usize>, mw: bool, ocap: Option<usize>, dflt: b
 }
 
 // ------------------------------------------------------------------------------------------------
+// a TCP stream whose writes reach the peer in small pieces (and, optionally, with stalls)
+// ------------------------------------------------------------------------------------------------
+/// `mode 0`: pass through. `1`: every write is cut into 1-byte pieces. `2`: 2–3 pieces per write at
+/// PRNG-chosen cut points. `3`: pieces of up to 1460 bytes. `+4`: stalls (1–3 ms, now and then 120 ms)
+/// between pieces; with `1+4` the first 16 and last 8 bytes of a buffer go byte by byte, the rest in 1–3 pieces. Each piece is its own `write` on a no-delay socket.
+struct ChopStream {
+    inner: TcpStream,
+    mode: u8,
+    rng: Rng,
+    sleep: Option<std::pin::Pin<Box<tokio::time::Sleep>>>,
+    /// bytes of the current write that may still go out before the next cut
+    budget: usize,
+    /// position inside the buffer tungstenite is flushing, and what was left of it after the last write
+    pos: usize,
+    last_remaining: usize,
+}
+
+impl ChopStream {
+    fn new(inner: TcpStream, mode: u8, seed: u64) -> ChopStream {
+        let _ = inner.set_nodelay(true);
+        ChopStream { inner, mode, rng: Rng::new(seed), sleep: None, budget: 0, pos: 0, last_remaining: 0 }
+    }
+}
+
+impl tokio::io::AsyncRead for ChopStream {
+    fn poll_read(mut self: std::pin::Pin<&mut Self>, cx: &mut std::task::Context<'_>, buf: &mut tokio::io::ReadBuf<'_>) -> std::task::Poll<std::io::Result<()>> {
+        std::pin::Pin::new(&mut self.inner).poll_read(cx, buf)
+    }
+}
+
+impl tokio::io::AsyncWrite for ChopStream {
+    fn poll_write(mut self: std::pin::Pin<&mut Self>, cx: &mut std::task::Context<'_>, buf: &[u8]) -> std::task::Poll<std::io::Result<usize>> {
+        use std::task::Poll;
+        let this = &mut *self;
+        if this.mode & 3 == 0 || buf.is_empty() {
+            return std::pin::Pin::new(&mut this.inner).poll_write(cx, buf);
+        }
+        if let Some(s) = this.sleep.as_mut() {
+            if s.as_mut().poll(cx).is_pending() {
+                return Poll::Pending;
+            }
+            this.sleep = None;
+        }
+        if buf.len() > this.last_remaining {
+            this.pos = 0; // a new buffer is being flushed
+        }
+        if this.budget == 0 {
+            this.budget = match this.mode & 3 {
+                // with stalls: byte by byte through the first and the last 64 bytes, the middle in bulk
+                1 if this.mode & 4 != 0 && this.pos >= 16 && buf.len() > 8 => ((buf.len() - 8) / (1 + this.rng.below(3) as usize)).max(1) + this.rng.below(5) as usize,
+                1 => 1,
+                2 => (buf.len() / (2 + this.rng.below(2) as usize)).max(1) + this.rng.below(3) as usize,
+                _ => 1460,
+            };
+        }
+        let n = this.budget.min(buf.len());
+        match std::pin::Pin::new(&mut this.inner).poll_write(cx, &buf[..n]) {
+            Poll::Ready(Ok(w)) => {
+                this.budget -= w.min(this.budget);
+                this.pos += w;
+                this.last_remaining = buf.len() - w;
+                if this.mode & 4 != 0 && this.rng.chance(1, 4) {
+                    let ms = if this.rng.chance(1, 60) { 120 } else { this.rng.range(1, 3) };
+                    this.sleep = Some(Box::pin(tokio::time::sleep(Duration::from_millis(ms))));
+                }
+                Poll::Ready(Ok(w))
+            }
+            other => other,
+        }
+    }
+    fn poll_flush(mut self: std::pin::Pin<&mut Self>, cx: &mut std::task::Context<'_>) -> std::task::Poll<std::io::Result<()>> {
+        std::pin::Pin::new(&mut self.inner).poll_flush(cx)
+    }
+    fn poll_shutdown(mut self: std::pin::Pin<&mut Self>, cx: &mut std::task::Context<'_>) -> std::task::Poll<std::io::Result<()>> {
+        std::pin::Pin::new(&mut self.inner).poll_shutdown(cx)
+    }
+}
+
+async fn chop_connect(addr: SocketAddr, cfg: Option<tokio_tungstenite::tungstenite::protocol::WebSocketConfig>, mode: u8, seed: u64) -> Result<WebSocketStream<ChopStream>, String> {
+    let tcp = TcpStream::connect(addr).await.map_err(|e| format!("connect: {e}"))?;
+    let url = format!("ws://{}/repe", addr);
+    // the HTTP upgrade goes out whole: tungstenite's server handshake rejects a request head that arrives in
+    // more than 64 tiny reads as an attack (its own rule, not repe's); the REPE frames after it are chopped
+    let (mut ws, _) = tokio_tungstenite::client_async_with_config(url, ChopStream::new(tcp, 0, seed), cfg).await.map_err(|e| format!("handshake: {e}"))?;
+    ws.get_mut().mode = mode;
+    Ok(ws)
+}
+
+// ------------------------------------------------------------------------------------------------
 // ops
 // ------------------------------------------------------------------------------------------------
 #[derive(Clone, Debug)]
@@ -383,7 +473,7 @@ fn parse_op(line: &str) -> Option<(String, Op)> {
 // one connection
 // ------------------------------------------------------------------------------------------------
 struct Conn {
-    ws: WebSocketStream<MaybeTlsStream<TcpStream>>,
+    ws: WebSocketStream<ChopStream>,
     events: UnboundedReceiver<SrvEvent>,
     sh: Arc<Shared>,
     cap: Option<usize>,
@@ -569,7 +659,7 @@ async fn do_arrive(c: &mut Conn, idx: &str, id: u64, blocking: bool, notify: boo
 /// Pressure scenario: all arrivals of the burst go out in one write; nothing is read until the whole
 /// burst is on the wire (plus a pause).  The last arrival must be an inline request: the reader handles
 /// frames in order, so its answer marks the point where every earlier frame has been handled.
-async fn do_burst(c: &mut Conn, items: &[(String, u64, bool, bool, u32)]) -> (Vec<OpResult>, bool) {
+async fn do_burst(c: &mut Conn, items: &[(String, u64, bool, bool, u32)], exits: &[(String, u64, Cmd)]) -> (Vec<OpResult>, bool) {
     let fail_all = |c: &Conn, items: &[(String, u64, bool, bool, u32)], sig: &str, detail: String, word: &str| -> (Vec<OpResult>, bool) {
         let mut v: Vec<OpResult> = items.iter().map(|(idx, ..)| OpResult { obs: format!("{idx} {word} ; running {}", c.gauge()), fails: vec![], broken: false }).collect();
         if let Some(l) = v.last_mut() {
@@ -593,7 +683,6 @@ async fn do_burst(c: &mut Conn, items: &[(String, u64, bool, bool, u32)]) -> (Ve
         return fail_all(c, items, "offreader.connection", format!("burst: {e}"), "closed");
     }
     // read nothing for a while: answers pile up behind the one-slot outbound queue
-    tokio::time::sleep(Duration::from_millis(150)).await;
     let n_blocking = items.iter().filter(|i| i.2).count();
     let barrier = items.last().map(|i| i.1).unwrap_or(0);
     let ids: BTreeSet<u64> = items.iter().map(|i| i.1).collect();
@@ -601,15 +690,46 @@ async fn do_burst(c: &mut Conn, items: &[(String, u64, bool, bool, u32)]) -> (Ve
     let mut answers: BTreeMap<u64, Vec<u32>> = BTreeMap::new();
     let mut sat = 0usize;
     let deadline = Instant::now() + WATCHDOG;
+    let mut exited: BTreeSet<u64> = BTreeSet::new();
+    let exit_notify: BTreeMap<u64, bool> = exits.iter().map(|(_, id, _)| (*id, c.parked.get(id).copied().unwrap_or(false))).collect();
+    if !exits.is_empty() {
+        // Handlers end while nobody reads the socket and the outbound queue is backed up.  To keep the
+        // order of events fixed, they are released only once every blocking request of the burst has been
+        // decided — which the harness learns from the server-side signals, without reading the socket.
+        while entered.len() + sat < n_blocking {
+            match tokio::time::timeout_at(tokio::time::Instant::from_std(deadline), c.events.recv()).await {
+                Ok(Some(SrvEvent::Entered(k))) if ids.contains(&k) => {
+                    entered.insert(k);
+                }
+                Ok(Some(SrvEvent::Saturation)) => sat += 1,
+                Ok(Some(_)) => {}
+                _ => break, // the usual collection below reports what is missing
+            }
+        }
+        for (_, id, cmd) in exits {
+            let gate = c.sh.gates.lock().unwrap().remove(id);
+            if let Some(g) = gate {
+                let _ = g.send(*cmd);
+            }
+        }
+    }
+    // read nothing for a while: answers pile up behind the outbound queue
+    tokio::time::sleep(Duration::from_millis(150)).await;
     let describe = |entered: &BTreeSet<u64>, answers: &BTreeMap<u64, Vec<u32>>, sat: usize| -> String {
         let unresolved: Vec<u64> = items.iter().filter(|i| !entered.contains(&i.1) && !answers.contains_key(&i.1) && !(i.2 && i.3)).map(|i| i.1).collect();
         format!("{} of {} requests of the burst neither started nor were answered: {:?} ({} started, {} answered, {} saturation reports)", unresolved.len(), items.len(), unresolved, entered.len(), answers.len(), sat)
     };
-    while !(answers.contains_key(&barrier) && entered.len() + sat >= n_blocking) {
+    let exits_done = |exited: &BTreeSet<u64>, answers: &BTreeMap<u64, Vec<u32>>| exits.iter().all(|(_, id, _)| exited.contains(id) && (exit_notify[id] || answers.contains_key(id)));
+    let exit_ids: BTreeSet<u64> = exits.iter().map(|e| e.1).collect();
+    while !(answers.contains_key(&barrier) && entered.len() + sat >= n_blocking && exits_done(&exited, &answers)) {
         match c.next(deadline).await {
             Seen::Event(SrvEvent::Entered(k)) if ids.contains(&k) => {
                 entered.insert(k);
             }
+            Seen::Event(SrvEvent::Exited(k)) if exit_ids.contains(&k) => {
+                exited.insert(k);
+            }
+            Seen::Frame(f) if f.h.notify == 0 && exit_ids.contains(&f.h.id) && !exit_notify[&f.h.id] => answers.entry(f.h.id).or_default().push(f.h.ec),
             Seen::Event(SrvEvent::Saturation) => sat += 1,
             Seen::Event(_) => {}
             Seen::Frame(f) if f.h.notify == 0 && ids.contains(&f.h.id) => answers.entry(f.h.id).or_default().push(f.h.ec),
@@ -658,6 +778,24 @@ async fn do_burst(c: &mut Conn, items: &[(String, u64, bool, bool, u32)]) -> (Ve
         } else {
             fails.push(("offreader.burst.unanswered".to_string(), format!("{idx}: request {id} of the burst was neither started nor answered although the request after it was")));
             "none".to_string()
+        };
+        out.push(OpResult { obs: format!("{idx} {what} ; running {running}"), fails, broken: false });
+    }
+    // the handlers that ended while the burst's answers were still queued
+    for (idx, id, cmd) in exits {
+        let mut fails = Vec::new();
+        c.parked.remove(id);
+        running -= 1;
+        let what = match answers.get(id) {
+            Some(a) => {
+                let want = match cmd { Cmd::Ret => 0, Cmd::Err(c) => *c, Cmd::Panic(_) => INTERNAL_ERROR };
+                if a.len() != 1 || a[0] != want {
+                    fails.push((if matches!(cmd, Cmd::Panic(_)) { "offreader.panic.code" } else { "offreader.exit.code" }.to_string(), format!("{idx}: handler {id} ended by {:?} behind a backed-up outbound queue; its caller got {:?} (want one answer with ec {})", cmd, a, want)));
+                }
+                c.answered.insert(*id, a[0]);
+                format!("resp {} {}", id, a[0])
+            }
+            None => "none".to_string(),
         };
         out.push(OpResult { obs: format!("{idx} {what} ; running {running}"), fails, broken: false });
     }
@@ -1325,6 +1463,73 @@ fn gen_scripts(r: &mut Rng, thorough: bool) -> Vec<Vec<Op>> {
         g.arrive(false, false, 0);
         scripts.push(g.ops);
     }
+    // N of the same thing in a row: refusals (every third a notify), inline calls, panics
+    for n in if thorough { vec![2usize, 7, 8, 9, 16, 17, 64, 65, 256, 1000] } else { vec![2usize, 8, 9, 17, 65] } {
+        let mut g = Gen::new(Some(1), n % 2 == 0, nb());
+        g.arrive(true, false, 0);
+        for i in 0..n {
+            g.arrive(true, i % 3 == 2, 0);
+        }
+        g.arrive(false, false, 0);
+        g.exit_all(r);
+        for i in 0..n.min(17) {
+            let id = g.arrive(true, false, 0);
+            g.exit(id, Cmd::Panic((i % PANIC_KINDS as usize) as u8));
+        }
+        for _ in 0..n.min(65) {
+            g.arrive(false, false, if n % 2 == 1 { 4 } else { 0 });
+        }
+        g.epilogue(r);
+        scripts.push(g.ops);
+    }
+    // more refusals in one piece than the default outbound queue holds (DEFAULT_OUTBOUND_CAPACITY = 256)
+    for n in if thorough { vec![255usize, 256, 257, 600] } else { vec![257usize] } {
+        let mut g = Gen::new(Some(1), false, nb());
+        g.arrive(true, false, 0);
+        g.ops.push(Op::Burst { begin: true });
+        for i in 0..n {
+            g.arrive(true, i % 50 == 49, 0);
+        }
+        g.arrive(false, false, 0);
+        g.ops.push(Op::Burst { begin: false });
+        g.exit_all(r);
+        g.epilogue(r);
+        scripts.push(g.ops);
+    }
+    // handlers end (return / error / panic) while the outbound queue is backed up and the peer is not
+    // reading; then the peer drops the connection with answers still queued
+    for (cap, ocap) in if thorough { vec![(1usize, 1usize), (2, 1), (3, 2), (4, 8)] } else { vec![(2usize, 1usize), (3, 2)] } {
+        let mut g = Gen::new(Some(cap), cap % 2 == 1, nb());
+        g.ops[0] = Op::Cap { cap: Some(cap), mw: cap % 2 == 1, ocap: Some(ocap), dflt: false };
+        for _ in 0..cap {
+            g.arrive(true, false, 0);
+        }
+        g.ops.push(Op::Burst { begin: true });
+        for i in 0..24 {
+            g.arrive(i % 3 != 0, false, 0); // big inline answers and refusals
+        }
+        g.arrive(false, false, 0);
+        let ids = g.running.clone();
+        for (i, id) in ids.iter().enumerate() {
+            g.exit(*id, [Cmd::Panic(1), Cmd::Ret, Cmd::Err(7), Cmd::Panic(5)][i % 4]);
+        }
+        g.ops.push(Op::Burst { begin: false });
+        for _ in 0..cap {
+            g.arrive(true, false, 0);
+        }
+        g.arrive(true, false, 0);
+        g.reconnect();
+        g.arrive(true, false, 0);
+        g.exit_all(r);
+        g.epilogue(r);
+        scripts.push(g.ops);
+    }
+    // pairs of knobs at their extremes: no cap / the default cap with a one-slot queue, with and without middleware
+    for (cap, ocap, mw) in [(None, 1usize, true), (Some(16usize), 1, false), (Some(1), 8, true)] {
+        let mut ops = random_script(r, cap, mw, nb(), thorough);
+        ops[0] = Op::Cap { cap, mw, ocap: Some(ocap), dflt: false };
+        scripts.push(ops);
+    }
     // pressure: bursts written in one piece against a one-slot outbound queue
     for round in 0..(if thorough { 8 } else { 2 }) {
         for cap in 1..=3usize {
@@ -1372,11 +1577,15 @@ async fn run_script(out: &mut Out, servers: &mut HashMap<SrvKey, Srv>, sno: usiz
     let (tx, rx) = unbounded_channel();
     *srv.sh.events.lock().unwrap() = Some(tx);
     srv.sh.max_gauge.store(0, Ordering::SeqCst);
-    let url = format!("ws://{}/repe", srv.addr);
-    let ws = match tokio::time::timeout(WATCHDOG, tokio_tungstenite::connect_async_with_config(&url, None, true)).await {
-        Ok(Ok((ws, _))) => ws,
-        _ => {
-            out.oracle_fail("offreader.setup", "could not connect to the server", &[]);
+    let addr = srv.addr;
+    // how this script's frames reach the server: in one piece, or chopped (by script number: replay-exact
+    // for a whole run; a replayed single script is sent unchopped unless it is the same number)
+    let chop: u8 = match sno % 9 { 2 => 1, 4 => 2, 5 => 3, 7 => 5, 8 => 6, _ => 0 };
+    out.count(&format!("offreader.client_writes.chop_mode_{}", chop));
+    let ws = match tokio::time::timeout(WATCHDOG, chop_connect(srv.addr, None, chop, sno as u64)).await {
+        Ok(Ok(ws)) => ws,
+        other => {
+            out.oracle_fail("offreader.setup", &format!("could not connect to the server (chop mode {}): {:?}", chop, other.map(|r| r.err())), &[]);
             return false;
         }
     };
@@ -1408,12 +1617,17 @@ async fn run_script(out: &mut Out, servers: &mut HashMap<SrvKey, Srv>, sno: usiz
             Op::Burst { begin: true } => {
                 out.config(&lines[k]);
                 let mut items = Vec::new();
+                let mut bexits: Vec<(String, u64, Cmd)> = Vec::new();
                 let mut idxs = Vec::new();
                 let mut e = k + 1;
                 while e < ops.len() {
                     match &ops[e].1 {
-                        Op::Arrive { id, blocking, notify, ec } => {
+                        Op::Arrive { id, blocking, notify, ec } if bexits.is_empty() => {
                             items.push((ops[e].0.clone(), *id, *blocking, *notify, *ec));
+                            idxs.push(e);
+                        }
+                        Op::Exit { id, cmd } if !items.is_empty() => {
+                            bexits.push((ops[e].0.clone(), *id, *cmd));
                             idxs.push(e);
                         }
                         _ => break,
@@ -1423,7 +1637,8 @@ async fn run_script(out: &mut Out, servers: &mut HashMap<SrvKey, Srv>, sno: usiz
                 in_burst = true;
                 out.count("offreader.bursts");
                 out.add("offreader.burst_requests", items.len() as u64);
-                let (rs, _broken) = do_burst(&mut c, &items).await;
+                out.add("offreader.exits_behind_backed_up_queue", bexits.len() as u64);
+                let (rs, _broken) = do_burst(&mut c, &items, &bexits).await;
                 for (i, r) in idxs.into_iter().zip(rs) {
                     results.push((i, r));
                 }
@@ -1543,8 +1758,8 @@ async fn run_script(out: &mut Out, servers: &mut HashMap<SrvKey, Srv>, sno: usiz
                 let parked: Vec<u64> = c.parked.keys().cloned().collect();
                 c.orphans.extend(parked);
                 c.parked.clear();
-                match tokio::time::timeout(WATCHDOG, tokio_tungstenite::connect_async_with_config(&url, None, true)).await {
-                    Ok(Ok((ws, _))) => {
+                match tokio::time::timeout(WATCHDOG, chop_connect(addr, None, chop, sno as u64 + 1000)).await {
+                    Ok(Ok(ws)) => {
                         let old = std::mem::replace(&mut c.ws, ws);
                         drop(old);
                     }
